@@ -154,7 +154,20 @@ def run_check(pid, mod, tier, seed):
             print(f"CHECKER-FAILURE property={pid} syntactic check {name} crashed: {type(e).__name__}: {e}")
             return 3
         syn_results.append({"name": name, "ok": bool(ok), "detail": detail, "note": note})
-    if not obligations and not syn_results:
+    bounded_results = []
+    for name, prop, fn, note in REG.bounded:
+        if prop != pid and pid not in (prop if isinstance(prop, (list, tuple)) else [prop]):
+            continue
+        tb = time.time()
+        try:
+            br = fn(tier, REPO)
+        except Exception as e:
+            traceback.print_exc()
+            print(f"CHECKER-FAILURE property={pid} bounded check {name} crashed: {type(e).__name__}: {e}")
+            return 3
+        br.update(name=name, note=note, wall_s=round(time.time() - tb, 1), label="bounded (never counted as proved)")
+        bounded_results.append(br)
+    if not obligations and not syn_results and not bounded_results:
         print(f"CHECKER-FAILURE property={pid} no obligations generated")
         return 3
     results = solve.solve_obligations(obligations)
@@ -250,6 +263,17 @@ def run_check(pid, mod, tier, seed):
             path = write_replay(pid, o, {"verdict": "refuted-syntactic", "model": None, "backend": "syntactic", "detail": s["detail"]}, None)
             violations.append((o, {"backend": "syntactic"}, None, path))
 
+    for br in bounded_results:
+        for fl in br.get("failures", [])[:3]:
+            kf = next((k for k in known if k.get("obligation") == br["name"] and k.get("witness_input") == fl.get("input")), None)
+            if kf is not None:
+                known_hits.append((kf, None, None))
+                continue
+            o = Obligation(br["name"], [], None, "bounded", [], "bounded", note=fl.get("clause", ""))
+            path = write_replay(pid, o, {"verdict": "bounded-counterexample", "model": None, "backend": "bounded", "detail": json.dumps(fl, default=str)[:1500]},
+                                {"confirmed": True, "function": br["name"], "inputs": fl.get("input"), "observed": fl})
+            violations.append((o, {"backend": "syntactic"}, {"confirmed": True}, path))
+            break
     wall = time.time() - t0
     samples = []
     for o, r in (discharged[:2] + refuted[:2] + undecided[:1]):
@@ -284,6 +308,7 @@ def run_check(pid, mod, tier, seed):
         "loops_with_invariant_True": weak_loops,
         "stale_helper_contracts_inlined": stale,
         "syntactic": syn_results,
+        "bounded": [{k: v for k, v in br.items() if k != "failures"} | {"failures": br.get("failures", [])[:3]} for br in bounded_results],
         "obligation_names": names if len(names) <= 400 else {"count": len(names)},
         "dropped_by_extraction": DROPPED,
         "samples": samples,
